@@ -12,18 +12,22 @@
 (*   Release(c)  some time after c's network connection ended: its slot, if it still has one         *)
 (* IMPLEMENTATION-SHAPED: a connection attempt is two critical sections of Broker.Lock -             *)
 (*   CheckEarly  (checkConnectPermission reads len(clients), unlocks)   and                           *)
-(*   Register    (handleConn: takeover branch, second check, clients[id] = c),                       *)
+(*   Register    (handleConn: takeover branch, second check, clients[id] = c; the CONNACK is written   *)
+(*               after the section, to a client that may take its time to read it),                    *)
 (* and removeClient at the end of the read loop's teardown.  The early check refuses a takeover       *)
 (* at the cap, which the contract allows (Cap slots are held).                                         *)
 EXTENDS Integers, FiniteSets, TLC
 
 CONSTANTS Cap, Ids, ConnsC, IdOf,    \* IdOf: [ConnsC -> Ids], the client id a connection attempt uses
+          LateRegister,             \* FALSE: the code - the decisive check and the registration are one critical section and the CONNACK is
+                                    \* written afterwards; TRUE: check under the lock, CONNACK written outside it (for as long as the client
+                                    \* takes to read it), registration only then (lead generation: must be refuted)
           StaleTakeover             \* FALSE: the code - Register looks the id up again under the lock; TRUE: "this is a takeover" is
                                     \* decided in CheckEarly (which then skips the cap check) and believed by Register although the
                                     \* Connect pipeline runs in between (lead generation: must be refuted)
 
 VARIABLES held,    \* [subset of Ids -> ConnsC]
-          st,      \* [ConnsC -> "new" | "early" | "earlyT" | "up" | "refused" | "ending" | "gone"]
+          st,      \* [ConnsC -> "new" | "early" | "earlyT" | "acking" | "up" | "refused" | "ending" | "gone"]
           obs      \* the step just taken
 
 cvars == <<held, st, obs>>
@@ -60,10 +64,20 @@ CheckEarly(c) ==
        THEN Refuse(c) /\ st' = [st EXCEPT ![c] = "refused"]
        ELSE UNCHANGED held /\ obs' = [a |-> "early", c |-> c, n |-> N] /\ st' = [st EXCEPT ![c] = "early"]
 Register(c) ==
-    /\ st[c] = "early"
+    /\ st[c] = "early" /\ ~LateRegister
     /\ IF IdOf[c] \in DOMAIN held \/ N < Cap
        THEN Accept(c) /\ st' = [st EXCEPT ![c] = "up"]
        ELSE Refuse(c) /\ st' = [st EXCEPT ![c] = "refused"]
+(* (LateRegister only) the check alone, then - after the CONNACK has been written - the registration *)
+CheckLocked(c) ==
+    /\ st[c] = "early" /\ LateRegister
+    /\ IF IdOf[c] \in DOMAIN held \/ N < Cap
+       THEN UNCHANGED held /\ obs' = [a |-> "checked", c |-> c, n |-> N] /\ st' = [st EXCEPT ![c] = "acking"]
+       ELSE Refuse(c) /\ st' = [st EXCEPT ![c] = "refused"]
+RegisterLate(c) ==
+    /\ st[c] = "acking" /\ st' = [st EXCEPT ![c] = "up"]
+    /\ held' = With(held, IdOf[c], c)
+    /\ obs' = [a |-> "accept", c |-> c, n |-> N, takeover |-> IdOf[c] \in DOMAIN held]
 RegisterStale(c) ==    \* (StaleTakeover only) registered as the takeover it was when it was looked up
     /\ st[c] = "earlyT" /\ st' = [st EXCEPT ![c] = "up"]
     /\ held' = With(held, IdOf[c], c)
@@ -75,7 +89,7 @@ Remove(c) ==           \* removeClient at the end of the teardown
     /\ st[c] = "ending" /\ st' = [st EXCEPT ![c] = "gone"]
     /\ Release(c)
 
-CNext == \E c \in ConnsC : CheckEarly(c) \/ Register(c) \/ RegisterStale(c) \/ EndConn(c) \/ Remove(c)
+CNext == \E c \in ConnsC : CheckEarly(c) \/ Register(c) \/ CheckLocked(c) \/ RegisterLate(c) \/ RegisterStale(c) \/ EndConn(c) \/ Remove(c)
 CSpec == CInit /\ [][CNext]_cvars
 
 (* ---- the property ---- *)
